@@ -12,20 +12,25 @@
 #include <setjmp.h>
 #include "main.h"
 #include "Inlines.h"
+#include "PLC.h"
 
 void verif_decode_core(silk_decoder_state *psDec, silk_decoder_control *psDecCtrl, opus_int16 xq[],
                        const opus_int16 pulses[MAX_FRAME_LENGTH], int arch);
 
 /* ------------------------------------------------------------------ recorder */
 #define GUARD 16384
-typedef struct { const char *name; char *base; long n, esz; long zlo, zhi; long rmin, rmax, wmin, wmax; int heap; char *blk; } vreg;
-static vreg regs[64]; static int nregs = 0; static int recording = 0;
+#define NPH 6
+typedef struct { const char *name; char *base; long n, esz; long zlo, zhi; long rmin[NPH], rmax[NPH], wmin[NPH], wmax[NPH]; int heap; char *blk; } vreg;
+static vreg regs[96]; static int nregs = 0; static int recording = 0; static int cur_phase = 0;
+void vrec_phase(int ph) { cur_phase = ph; }
 
+static void vtouch(const void *addr, long size, int wr);
 static vreg *vreg_add(const char *name, void *base, long n, long esz, long guard)
 {
    vreg *g = &regs[nregs++];
    g->name = name; g->base = (char *)base; g->n = n; g->esz = esz; g->zlo = guard; g->zhi = guard;
-   g->rmin = g->wmin = 1L << 40; g->rmax = g->wmax = -(1L << 40); g->heap = 0; g->blk = NULL;
+   { int q; for (q = 0; q < NPH; q++) { g->rmin[q] = g->wmin[q] = 1L << 40; g->rmax[q] = g->wmax[q] = -(1L << 40); } }
+   g->heap = 0; g->blk = NULL;
    return g;
 }
 void *vrec_alloc(const char *name, long n, long esz)
@@ -36,6 +41,14 @@ void *vrec_alloc(const char *name, long n, long esz)
    memset(blk, 0x5a, bytes + 2 * GUARD);
    g = vreg_add(name, blk + GUARD, n, esz, GUARD);
    g->heap = 1; g->blk = blk;
+   if (!strcmp(name, "psDecCtrl")) {          /* ALLOC( psDecCtrl, 1, silk_decoder_control ) in silk_decode_frame: its arrays */
+      silk_decoder_control *ctl = (silk_decoder_control *)(blk + GUARD);
+      memset(ctl, 0, sizeof(*ctl));
+      vreg_add("PredCoef_Q12", ctl->PredCoef_Q12, 2 * MAX_LPC_ORDER, sizeof(opus_int16), 0);
+      vreg_add("LTPCoef_Q14", ctl->LTPCoef_Q14, LTP_ORDER * MAX_NB_SUBFR, sizeof(opus_int16), 0);
+      vreg_add("Gains_Q16", ctl->Gains_Q16, MAX_NB_SUBFR, sizeof(opus_int32), 0);
+      vreg_add("pitchL", ctl->pitchL, MAX_NB_SUBFR, sizeof(opus_int), 0);
+   }
    return blk + GUARD;
 }
 static void vreg_reset(void) { int i; for (i = 0; i < nregs; i++) if (regs[i].heap) free(regs[i].blk); nregs = 0; }
@@ -51,8 +64,8 @@ static void vtouch(const void *addr, long size, int wr)
          lo = off >= 0 ? off / g->esz : -((-off + g->esz - 1) / g->esz);
          off += size - 1;
          hi = off >= 0 ? off / g->esz : -((-off + g->esz - 1) / g->esz);
-         if (wr) { if (lo < g->wmin) g->wmin = lo; if (hi > g->wmax) g->wmax = hi; }
-         else    { if (lo < g->rmin) g->rmin = lo; if (hi > g->rmax) g->rmax = hi; }
+         if (wr) { if (lo < g->wmin[cur_phase]) g->wmin[cur_phase] = lo; if (hi > g->wmax[cur_phase]) g->wmax[cur_phase] = hi; }
+         else    { if (lo < g->rmin[cur_phase]) g->rmin[cur_phase] = lo; if (hi > g->rmax[cur_phase]) g->rmax[cur_phase] = hi; }
          return;
       }
    }
@@ -73,21 +86,29 @@ void *vrec_memmove(void *d, const void *s, size_t n) { if (n) { vtouch(s, (long)
 void *vrec_memset(void *d, int c, size_t n) { if (n) vtouch(d, (long)n, 1); return memset(d, c, n); }
 
 static void pext(long lo, long hi) { if (lo > hi) printf("-"); else printf("%ld..%ld", lo, hi); }
-static void print_extents(const char *const *names, int nn)
+static void get_extent(const char *name, int ph, long *rmin, long *rmax, long *wmin, long *wmax)
 {
-   int i, j;
+   int i;
+   *rmin = *wmin = 1L << 40; *rmax = *wmax = -(1L << 40);
+   for (i = 0; i < nregs; i++) if (!strcmp(regs[i].name, name)) {
+      if (regs[i].rmin[ph] < *rmin) *rmin = regs[i].rmin[ph]; if (regs[i].rmax[ph] > *rmax) *rmax = regs[i].rmax[ph];
+      if (regs[i].wmin[ph] < *wmin) *wmin = regs[i].wmin[ph]; if (regs[i].wmax[ph] > *wmax) *wmax = regs[i].wmax[ph];
+   }
+}
+static void print_extents_ph(const char *const *names, int nn, int ph)
+{
+   int j;
    for (j = 0; j < nn; j++) {
-      long rmin = 1L << 40, rmax = -(1L << 40), wmin = 1L << 40, wmax = -(1L << 40);
-      for (i = 0; i < nregs; i++) if (!strcmp(regs[i].name, names[j])) {
-         if (regs[i].rmin < rmin) rmin = regs[i].rmin; if (regs[i].rmax > rmax) rmax = regs[i].rmax;
-         if (regs[i].wmin < wmin) wmin = regs[i].wmin; if (regs[i].wmax > wmax) wmax = regs[i].wmax;
-      }
+      long rmin, rmax, wmin, wmax;
+      get_extent(names[j], ph, &rmin, &rmax, &wmin, &wmax);
       printf("%s%s:r=", j ? " " : "", names[j]); pext(rmin, rmax); printf(",w="); pext(wmin, wmax);
    }
 }
+static void print_extents(const char *const *names, int nn) { print_extents_ph(names, nn, 0); }
+void vrec_note(const void *p, long bytes, int wr) { if (bytes > 0) vtouch(p, bytes, wr); }
 
 /* ------------------------------------------------------------------ celt_assert -> ABORT without ending the run */
-static sigjmp_buf vjmp; static volatile int vjmp_armed = 0;
+static sigjmp_buf vjmp; static volatile int vjmp_armed = 0; static int last_abort = 0;
 static void vabort_jump(int sig) { (void)sig; if (vjmp_armed) siglongjmp(vjmp, 1); fputs("\nO ABORT\n", stdout); fflush(stdout); _exit(3); }
 
 /* ------------------------------------------------------------------ silk_decode_core */
@@ -197,11 +218,149 @@ static void run_core(uint64_t seed, long nrand)
    }
 }
 
+
+/* ------------------------------------------------------------------ silk_decode_frame over scripted histories */
+opus_int verif_decode_frame(silk_decoder_state *psDec, ec_dec *psRangeDec, opus_int16 pOut[], opus_int32 *pN,
+                            opus_int lostFlag, opus_int condCoding, int arch);
+
+typedef struct { int sig, qoff, interp, pitchL[4]; opus_int16 ltp[20]; opus_int32 gains[4]; vrng *r; } frame_script;
+static frame_script fscr;
+
+void vstub_decode_indices(silk_decoder_state *psDec, ec_dec *rd, opus_int FrameIndex, opus_int decode_LBRR, opus_int condCoding)
+{
+   (void)rd; (void)FrameIndex; (void)decode_LBRR; (void)condCoding;
+   psDec->indices.signalType = (opus_int8)fscr.sig; psDec->indices.quantOffsetType = (opus_int8)fscr.qoff;
+   psDec->indices.NLSFInterpCoef_Q2 = (opus_int8)(fscr.interp ? vbelow(fscr.r, 4) : 4);
+   psDec->indices.Seed = (opus_int8)vbelow(fscr.r, 4);
+}
+void vstub_decode_pulses(ec_dec *rd, opus_int16 pulses[], const opus_int signalType, const opus_int quantOffsetType, const opus_int frame_length)
+{
+   int i; (void)rd; (void)signalType; (void)quantOffsetType;
+   for (i = 0; i < frame_length; i++) pulses[i] = (opus_int16)(vchance(fscr.r, 60) ? 0 : vrange(fscr.r, -20, 20));
+}
+void vstub_decode_parameters(silk_decoder_state *psDec, silk_decoder_control *ctl, opus_int condCoding)
+{
+   int i, k, v = 0; (void)condCoding;
+   for (k = 0; k < 4; k++) { ctl->pitchL[k] = fscr.pitchL[k]; ctl->Gains_Q16[k] = fscr.gains[k]; }
+   for (k = 0; k < 2; k++) for (i = 0; i < MAX_LPC_ORDER; i++) ctl->PredCoef_Q12[k][i] = (opus_int16)vrange(fscr.r, -500, 500);
+   for (i = 0; i < LTP_ORDER * MAX_NB_SUBFR; i++) ctl->LTPCoef_Q14[i] = fscr.ltp[i];
+   ctl->LTP_scale_Q14 = 15565;
+   for (i = 0; i < psDec->LPC_order; i++) { v += vrange(fscr.r, 300, 32000 / 17); psDec->prevNLSF_Q15[i] = (opus_int16)v; }   /* ordered */
+}
+
+static const char *const plc_names[] = {"sLTP", "sLTP_Q14", "exc_buf", "exc_Q14", "outBuf", "sLPC_Q14_buf", "PLC_LTPCoef_Q14",
+                                        "prevLPC_Q12", "prevGain_Q16", "PredCoef_Q12", "LTPCoef_Q14", "Gains_Q16", "pitchL", "xq"};
+static const char *const top_names[] = {"outBuf", "xq", "pitchL"};
+static const char *const cng_names[] = {"CNG_exc_buf_Q14", "CNG_smth_NLSF_Q15", "CNG_synth_state", "CNG_sig_Q14", "prevNLSF_Q15",
+                                        "Gains_Q16", "exc_Q14", "prevGain_Q16", "xq"};
+#define NEL(a) ((int)(sizeof(a) / sizeof((a)[0])))
+
+static void print_state(const silk_decoder_state *st)
+{
+   printf("%d %d %d %d %d %d %d %d %d %d %d %d %d %d", st->fs_kHz, st->nb_subfr, st->lossCnt, st->prevSignalType, st->lagPrev,
+          st->first_frame_after_reset, st->sPLC.fs_kHz, (int)st->sPLC.pitchL_Q8, st->sPLC.nb_subfr, st->sPLC.subfr_length,
+          st->sPLC.last_frame_lost, (int)st->sPLC.rand_seed, st->sCNG.fs_kHz, (int)st->sCNG.rand_seed);
+}
+
+/* PLC.c:264-272: which of the last two sub-frames has the lower energy (the library's own arithmetic, recomputed
+   here only to tell the model which branch the code is going to take) */
+static int plc_low_first(const silk_decoder_state *st)
+{
+   opus_int32 g[2], e1, e2; opus_int s1, s2; int i, k, S = st->subfr_length, nb = st->nb_subfr;
+   opus_int16 buf[2 * MAX_SUB_FRAME_LENGTH];
+   if (st->fs_kHz != st->sPLC.fs_kHz) g[0] = g[1] = 65536 >> 6; else { g[0] = st->sPLC.prevGain_Q16[0] >> 6; g[1] = st->sPLC.prevGain_Q16[1] >> 6; }
+   for (k = 0; k < 2; k++) for (i = 0; i < S; i++)
+      buf[k * S + i] = (opus_int16)silk_SAT16(silk_RSHIFT(silk_SMULWW(st->exc_Q14[i + (k + nb - 2) * S], g[k]), 8));
+   silk_sum_sqr_shift(&e1, &s1, buf, S); silk_sum_sqr_shift(&e2, &s2, buf + S, S);
+   return silk_RSHIFT(e1, s2) < silk_RSHIFT(e2, s1);
+}
+
+static void do_frame(silk_decoder_state *st, vrng *r, int lost)
+{
+   int k, i, F = st->frame_length, gd[4], ad[4], lowFirst = 0; opus_int32 pg, pN = 0; opus_int16 *xq;
+   pg = st->prev_gain_Q16;
+   for (k = 0; k < 4; k++) { gd[k] = fscr.gains[k] != pg; ad[k] = gd[k] && silk_DIV32_varQ(pg, fscr.gains[k], 16) != ((opus_int32)1 << 16); pg = fscr.gains[k]; }
+   if (lost) lowFirst = plc_low_first(st);
+   printf("I silkparams synthframe "); print_state(st);
+   printf(" %d %d %d %d %d,%d,%d,%d ", lost, fscr.sig, fscr.qoff, fscr.interp, fscr.pitchL[0], fscr.pitchL[1], fscr.pitchL[2], fscr.pitchL[3]);
+   for (i = 0; i < 20; i++) printf("%s%d", i ? "," : "", fscr.ltp[i]);
+   printf(" %d,%d,%d,%d %d%d%d%d %d%d%d%d %d\n", fscr.gains[0], fscr.gains[1], fscr.gains[2], fscr.gains[3], gd[0], gd[1], gd[2], gd[3], ad[0], ad[1], ad[2], ad[3], lowFirst);
+   fflush(stdout);
+   vreg_reset();
+   xq = (opus_int16 *)vrec_alloc("xq", F, sizeof(opus_int16));
+   vreg_add("exc_Q14", st->exc_Q14, MAX_FRAME_LENGTH, sizeof(opus_int32), 0);
+   vreg_add("outBuf", st->outBuf, MAX_FRAME_LENGTH + 2 * MAX_SUB_FRAME_LENGTH, sizeof(opus_int16), 0);
+   vreg_add("sLPC_Q14_buf", st->sLPC_Q14_buf, MAX_LPC_ORDER, sizeof(opus_int32), 0);
+   vreg_add("prevNLSF_Q15", st->prevNLSF_Q15, MAX_LPC_ORDER, sizeof(opus_int16), 0);
+   vreg_add("PLC_LTPCoef_Q14", st->sPLC.LTPCoef_Q14, LTP_ORDER, sizeof(opus_int16), 0);
+   vreg_add("prevLPC_Q12", st->sPLC.prevLPC_Q12, MAX_LPC_ORDER, sizeof(opus_int16), 0);
+   vreg_add("prevGain_Q16", st->sPLC.prevGain_Q16, 2, sizeof(opus_int32), 0);
+   vreg_add("CNG_exc_buf_Q14", st->sCNG.CNG_exc_buf_Q14, MAX_FRAME_LENGTH, sizeof(opus_int32), 0);
+   vreg_add("CNG_smth_NLSF_Q15", st->sCNG.CNG_smth_NLSF_Q15, MAX_LPC_ORDER, sizeof(opus_int16), 0);
+   vreg_add("CNG_synth_state", st->sCNG.CNG_synth_state, MAX_LPC_ORDER, sizeof(opus_int32), 0);
+   vjmp_armed = 1;
+   if (sigsetjmp(vjmp, 1) == 0) {
+      long rmin, rmax, wmin, wmax;
+      cur_phase = 3; recording = 1;
+      verif_decode_frame(st, NULL, xq, &pN, lost ? FLAG_PACKET_LOST : FLAG_DECODE_NORMAL, CODE_INDEPENDENTLY, 0);
+      recording = 0; vjmp_armed = 0; cur_phase = 0;
+      printf("O OK core{"); print_extents_ph(core_names, NEL(core_names), 1);
+      printf("} plc{"); print_extents_ph(plc_names, NEL(plc_names), 2);
+      printf("} top{"); print_extents_ph(top_names, NEL(top_names), 3);
+      printf("} cng{"); print_extents_ph(cng_names, NEL(cng_names), 4);
+      get_extent("xq", 5, &rmin, &rmax, &wmin, &wmax);
+      printf("} glue{xq:r="); pext(rmin, rmax); printf(",w=%s} st=", (wmin > wmax || (wmin >= 0 && wmax < F)) ? "ok" : "OOB");
+      print_state(st); printf("\n");
+   } else {
+      recording = 0; vjmp_armed = 0; cur_phase = 0; last_abort = 1;
+      printf("O ABORT\n");
+   }
+   vreg_reset();
+}
+
+static void script_frame(vrng *r, const silk_decoder_state *st, int wild)
+{
+   int fs = st->fs_kHz, minl = 2 * fs, maxl = 18 * fs, k, i, base;
+   fscr.r = r;
+   fscr.sig = vchance(r, 45) ? 2 : (int)vbelow(r, 2); fscr.qoff = (int)vbelow(r, 2); fscr.interp = (int)vbelow(r, 2);
+   base = vchance(r, 30) ? (vchance(r, 50) ? minl : maxl) : vrange(r, minl, maxl);
+   for (k = 0; k < 4; k++) { int v = base + vrange(r, -10, 10); fscr.pitchL[k] = fscr.sig == 2 ? (v < minl ? minl : v > maxl ? maxl : v) : 0; }
+   if (wild && fscr.sig == 2 && vchance(r, 50)) fscr.pitchL[vbelow(r, 4)] = vrange(r, -20, 20 * fs + 10);       /* illegal lag */
+   for (i = 0; i < 20; i++) fscr.ltp[i] = (opus_int16)(vchance(r, 20) ? 0 : vrange(r, -3000, 6000));
+   if (vchance(r, 15)) for (i = 0; i < 20; i++) fscr.ltp[i] = (opus_int16)(-(int)vbelow(r, 100));                     /* no positive LTP gain */
+   for (k = 0; k < 4; k++) fscr.gains[k] = vchance(r, 40) ? (k ? fscr.gains[k - 1] : st->prev_gain_Q16) : (opus_int32)(1 << vrange(r, 12, 24)) + (opus_int32)vbelow(r, 999);
+}
+
+static void run_frames(uint64_t seed, long nhist)
+{
+   static const int fss[3] = {8, 12, 16};
+   vrng r; long h; int step;
+   silk_decoder_state *st = (silk_decoder_state *)calloc(1, sizeof(*st));
+   r.s = seed * 0x9E3779B97F4A7C15ULL + 4242;
+   for (h = 0; h < nhist; h++) {
+      int len = vrange(&r, 3, 14), wild = vchance(&r, 6);
+      silk_init_decoder(st);
+      st->nb_subfr = vchance(&r, 50) ? 2 : 4; silk_decoder_set_fs(st, fss[vbelow(&r, 3)], 48000);
+      for (step = 0; step < len; step++) {
+         int e = (int)vbelow(&r, 100);
+         if (e < 10) { st->nb_subfr = vchance(&r, 50) ? 2 : 4; silk_decoder_set_fs(st, fss[vbelow(&r, 3)], 48000); }      /* rate / frame-size switch */
+         else if (e < 13) { st->lagPrev = 100; st->LastGainIndex = 10; st->prevSignalType = TYPE_NO_VOICE_ACTIVITY; st->first_frame_after_reset = 1;
+                            memset(st->outBuf, 0, sizeof(st->outBuf)); memset(st->sLPC_Q14_buf, 0, sizeof(st->sLPC_Q14_buf)); }   /* dec_API.c:302-309 */
+         else if (e < 15) { silk_init_decoder(st); st->nb_subfr = vchance(&r, 50) ? 2 : 4; silk_decoder_set_fs(st, fss[vbelow(&r, 3)], 48000); }
+         script_frame(&r, st, wild);
+         do_frame(st, &r, e >= 15 && vchance(&r, 40));
+         if (last_abort) { last_abort = 0; break; }     /* the state is not meaningful after a fired assertion */
+      }
+   }
+   free(st);
+}
+
 int main(int argc, char **argv)
 {
    signal(SIGABRT, vabort_jump);
    if (argc >= 4 && !strcmp(argv[1], "core")) run_core(strtoull(argv[2], 0, 10), atol(argv[3]));
-   else { fprintf(stderr, "usage: c18_synthidx core <seed> <nrand>\n"); return 64; }
+   else if (argc >= 4 && !strcmp(argv[1], "frames")) run_frames(strtoull(argv[2], 0, 10), atol(argv[3]));
+   else { fprintf(stderr, "usage: c18_synthidx core <seed> <nrand> | frames <seed> <nhist>\n"); return 64; }
    fflush(stdout);
    return 0;
 }
